@@ -324,6 +324,52 @@ def e2e_rule_statuses(result):
     return out
 
 
+def query_matrix(ctx):
+    """both sides of the operator are QUERIES: documents {"A": x, "B": y, "LA": [x, x'], "LB": [y, y']} x rules A == B, A != B, B == A,
+    LA[*] == LB[*], LA[*] != LB[*], A in LB, A not in LB, for x, y over the JSON-able universe plus maps / nested maps / lists of maps that are
+    equal but written with their keys in another order; the model against the implementation (status and record tree), and on the
+    implementation alone: values that differ only in key order are equal."""
+    import itertools
+    vals = [(u[1], u[2]) for u in UNIVERSE if u[1] is not NOJSON and u[0] in QUICK + ['{a: "x"}', '["a"]', '[[1, 2]]']]
+    vals += [({'m': {'x': 1, 'y': 2}, 'k': [1]}, 'map'), ({'k': [1], 'm': {'y': 2, 'x': 1}}, 'map'), ([{'a': 1, 'b': 2}, {'c': 3}], 'list'), ([{'b': 2, 'a': 1}, {'c': 3}], 'list'),
+             ({'a': 1, 'b': 2, 'c': {'d': [{'e': 1, 'f': 2}]}}, 'map'), ({'c': {'d': [{'f': 2, 'e': 1}]}, 'b': 2, 'a': 1}, 'map'), ({'a': 1, 'b': 3}, 'map')]
+    canon = lambda v: json.dumps(v, sort_keys=True)
+    pairs_xy = []
+    for (x, cx), (y, cy) in itertools.product(vals, vals):
+        if cx == cy or canon(x) == canon(y) or (ctx.tier == 'thorough'):
+            pairs_xy.append((x, cx, y, cy))
+    rules = ('rule q0 {\n  A == B\n}\nrule q1 {\n  A != B\n}\nrule q2 {\n  B == A\n}\nrule q3 {\n  LA[*] == LB[*]\n}\nrule q4 {\n  LA[*] != LB[*]\n}\n'
+             'rule q5 {\n  A in LB\n}\nrule q6 {\n  A not in LB\n}\nrule q7 {\n  some LA[*] == LB[*]\n}\n')
+    pairs = []
+    for x, cx, y, cy in pairs_xy:
+        doc = {'A': x, 'B': y, 'LA': [x, {'zz': 1}], 'LB': [y, {'zz': 1}]}
+        pairs.append({'rules': rules, 'data': json.dumps(doc)})
+    out, errs = corr.run(pairs, ctx.wd, 'c13query', loader='json')
+    if errs:
+        raise ToolingError('model evaluation failed: %r' % (errs[:1],))
+    n = 0
+    for (x, cx, y, cy), p, o in zip(pairs_xy, pairs, out):
+        if o['kind'] != 'compared':
+            continue
+        n += 1
+        ctx.coverage['evaluations'] += 8
+        if o['verdict'] not in ('VAgree', 'VAgreeErr'):
+            ctx.failing('query-to-query comparisons on %s: model and implementation disagree (%s)' % (p['data'][:120], o['verdict']),
+                        {'class': 'query-correspondence', 'rules': rules, 'data': p['data'], 'verdict': o['verdict']}, found=False)
+        res = o['result']
+        if res[0] != 'Ok' or cx not in ('map', 'list') or canon(x) != canon(y):
+            continue
+        sts = [child[2]['O'][2] for child in ct.L(res[2][3]) if child[2]['O'][0] == 'RuleCheck']
+        want = ['PASS', 'FAIL', 'PASS', 'PASS', 'FAIL', 'PASS', 'FAIL', 'PASS']
+        if x in ([], {}):
+            continue            # an empty list / struct under [*] is a missing value, not an equality question
+        if sts != want:
+            ctx.failing('two values that differ only in the order of their keys (%s / %s) compared query to query: statuses %s, expected %s' % (json.dumps(x)[:60], json.dumps(y)[:60], sts, want),
+                        {'class': 'key-order-equality', 'rules': rules, 'data': p['data'], 'statuses': sts}, found=True)
+    ctx.coverage['query_to_query_documents'] = n
+    return n
+
+
 def run(ctx):
     ctx.build()
     pr = ctx.proofs('C13')
@@ -332,6 +378,7 @@ def run(ctx):
     lhs, index, status = clause_matrix(ctx, univ)
     n = monitor(ctx, univ, lhs, index, status)
     n += regex_history(ctx)
+    n += query_matrix(ctx)
     ctx.coverage['distinct_nontrivial'] = len(set(codes)) and len(codes) + len(status)
     ctx.coverage['exhaustive'] = True
     ctx.coverage['rule'] = ('all ordered pairs of the %d-value universe x 6 kernels through the cmp hook; documents {"v": a} x '
